@@ -164,7 +164,7 @@ def runDwt (op : String) (ps : List Int) (ts : List (Option (T α))) : Res α :=
           sfb2d m gc0.l1 gc1.l1 gr0.l1 gr1.l1 (ll.l4.getD i []) (lh.l4.getD i []) (hl.l4.getD i []) (hh.l4.getD i [])
         some [some (ofL4 y)]
     | _ => .bad
-  | "afb2d_nonsep", [m], [some hc0, some hc1, some hr0, some hr1, some x] =>
+  | "afb2d_nonsep", [m, _form], [some hc0, some hc1, some hr0, some hr1, some x] =>
     match modeOfInt m with
     | some m => resOfOpt do
         -- output (N, 4C, H', W'), channel 4c+k
@@ -173,7 +173,7 @@ def runDwt (op : String) (ps : List Int) (ts : List (Option (T α))) : Res α :=
           some chans.flatten
         some [some (ofL4 y)]
     | _ => .bad
-  | "sfb2d_nonsep", [m], [some gc0, some gc1, some gr0, some gr1, some co] =>
+  | "sfb2d_nonsep", [m, _form], [some gc0, some gc1, some gr0, some gr1, some co] =>
     match modeOfInt m with
     | some m => resOfOpt do
         let dense := co.shape.getD 0 0 * co.shape.getD 1 0 == 1
